@@ -262,6 +262,7 @@ func runC19(c *Ctx) *Replay {
 			k.Index = op.Index
 			fs.Ops = []FileOp{k}
 			viol := execCLI(c.N, &fs)
+			first := lastCLIRun
 			c.Count("evaluations", 1)
 			c.Count("fault:"+op.Op+"-"+k.Kind, 1)
 			c.State("c19", sc.Extra["tool"], class, op.Op+"-"+k.Kind, fs.Extra["exit"])
@@ -269,6 +270,38 @@ func runC19(c *Ctx) *Replay {
 				c.Log(op.Index, k.Kind, viol.Signature)
 				if rp := c.reportPlain(&fs, viol); rp != nil {
 					return rp
+				}
+			}
+			// recovery paths: when the tool went on making os calls after a (non-crash)
+			// fault, fail or crash each of those calls as well
+			if first == nil || strings.HasPrefix(k.Kind, "crash") {
+				continue
+			}
+			for _, op2 := range first.Ops {
+				if op2.Index <= op.Index || op2.Op == "exit" {
+					continue
+				}
+				var kinds2 []FileOp
+				switch op2.Op {
+				case "write", "writefile":
+					kinds2 = []FileOp{{Kind: "error", Errno: "ENOSPC"}, {Kind: "torn", Errno: "EIO", Partial: r.Intn(op2.Size + 1)}, {Kind: "crash-after"}}
+				default:
+					kinds2 = []FileOp{{Kind: "error", Errno: "EIO"}, {Kind: "crash-after"}}
+				}
+				for _, k2 := range kinds2 {
+					ds := cloneScenario(&sc)
+					k2.Index = op2.Index
+					ds.Ops = []FileOp{k, k2}
+					viol := execCLI(c.N, &ds)
+					c.Count("evaluations", 1)
+					c.Count("fault2:"+op.Op+"-"+k.Kind+"+"+op2.Op+"-"+k2.Kind, 1)
+					c.State("c19", sc.Extra["tool"], class, op.Op+"-"+k.Kind+"+"+op2.Op+"-"+k2.Kind, ds.Extra["exit"])
+					if viol != nil {
+						c.Log(op.Index, op2.Index, viol.Signature)
+						if rp := c.reportPlain(&ds, viol); rp != nil {
+							return rp
+						}
+					}
 				}
 			}
 		}
@@ -279,25 +312,7 @@ func runC19(c *Ctx) *Replay {
 // reportPlain reports a violation whose scenario is already minimal in structure (one
 // fault); known findings are matched, duplicates dropped.
 func (c *Ctx) reportPlain(sc *Scenario, v *Violation) *Replay {
-	rp := &Replay{Property: c.N.Batch.Property, Scenario: *sc, Violation: *v}
-	rp.Violation.Property = c.N.Batch.Property
-	for i := range c.N.Batch.Known {
-		k := &c.N.Batch.Known[i]
-		if k.Match(rp) {
-			c.Count("known:"+k.ID, 1)
-			if !seenSig["known:"+k.ID] {
-				seenSig["known:"+k.ID] = true
-				rp.Known = k.ID
-				return rp
-			}
-			return nil
-		}
-	}
-	c.Count("violations_raw", 1)
-	if seenSig[v.Signature] {
-		return nil
-	}
-	seenSig[v.Signature] = true
+	rp, _ := c.gate(sc, v, nil)
 	return rp
 }
 
@@ -333,7 +348,11 @@ func opRole(bl *cliRun, idx int, targets map[string]bool) string {
 	return "?"
 }
 
+// lastCLIRun is the process run of the most recent execCLI call (nil for baseline-only).
+var lastCLIRun *cliRun
+
 func execCLI(n *Node, sc *Scenario) *Violation {
+	lastCLIRun = nil
 	if sc.Extra == nil {
 		sc.Extra = map[string]string{}
 	}
@@ -368,13 +387,23 @@ func execCLI(n *Node, sc *Scenario) *Violation {
 			sc.Extra["skipped"] = err.Error()
 			return nil
 		}
+		lastCLIRun = run
 		faultKind = sc.Ops[0].Kind
 		role = opRole(bl, sc.Ops[0].Index, targets)
+		if len(sc.Ops) > 1 {
+			last := sc.Ops[len(sc.Ops)-1]
+			faultKind = sc.Ops[0].Kind + "+" + last.Kind
+			for _, o := range run.Ops {
+				if o.Index == last.Index {
+					role += "+" + o.Op
+				}
+			}
+		}
 	}
 	sc.Extra["exit"] = fmt.Sprint(run.Exit)
 	facts := map[string]string{"tool": tool, "class": class, "fault": faultKind, "role": role}
 	failed := run.Exit != 0
-	crashRun := strings.HasPrefix(faultKind, "crash")
+	crashRun := run.Signaled
 	// (1) a failed or crashed run leaves every pre-existing file as it was
 	if failed {
 		var names []string
